@@ -17,6 +17,7 @@ import (
 	"math/rand"
 	"os"
 	"path/filepath"
+	"strconv"
 	"strings"
 	"sync"
 	"unicode"
@@ -845,12 +846,54 @@ func engineValidateCLI(ctx *Ctx) {
 	h := NewHome(base)
 	defer os.RemoveAll(base)
 	dbp := filepath.Join(base, "db.yml")
-	if err := vlib.WriteYAML(dbp, vlib.GenCommands(r, vlib.DBSpec{N: 30})); err != nil {
+	// 260 entries, every one of them matching the word "common": more matches than any acceptable limit
+	cmds := vlib.GenCommands(r, vlib.DBSpec{N: 260})
+	for i := range cmds {
+		cmds[i].Description += " common"
+	}
+	cmds = vlib.StripCaches(cmds)
+	if err := vlib.WriteYAML(dbp, cmds); err != nil {
 		panic(err)
 	}
+	// the variables the program under test reads from its environment (collected from its source), apart from those that
+	// say where its files are: set to numbers beyond every bound, negative numbers and text
+	var envNames []string
+	for _, n := range ctx.Dict().EnvNames {
+		switch n {
+		case "HOME", "PATH", "XDG_CONFIG_HOME", "TMPDIR", "TZ", "APPDATA", "USERPROFILE", "LOCALAPPDATA":
+		default:
+			envNames = append(envNames, n)
+		}
+	}
 	const prefix = "Searching for:"
-	for i, n := 0, ctx.N(160, 1600); i < n; i++ {
+	prevLen, prevQ := 0, ""
+	for i, n := 0, ctx.N(320, 3200); i < n; i++ {
 		arg := c14CLIArg(r, a, i+ctx.Shard)
+		if i%3 == 1 {
+			arg = "common " + vlib.Word(r, nil) // an acceptable query with hundreds of matches
+		}
+		format := []string{"", "", "list", "table", "json", "json"}[r.Intn(6)]
+		limitArg := []string{"", "", "0", "1", "7", "100", "101", "5000", "-3", "abc", "2147483648"}[r.Intn(11)]
+		if i%3 == 1 {
+			limitArg = []string{"", "0", "0", "", "100", "101", "7"}[r.Intn(7)]
+		}
+		var env []string
+		if len(envNames) > 0 && r.Intn(4) > 0 {
+			for _, name := range envNames { // every variable the program knows, each with a value of its own
+				if r.Intn(4) > 0 {
+					env = append(env, name+"="+[]string{"300", "101", "1000000", "-1", "0", "abc", "", "1e3", "99999999999999999999", "true", "100", "250", "65536"}[r.Intn(13)])
+				}
+			}
+			ctx.R.Path("cli-runs-with-program-variables-set", 1)
+		}
+		args := []string{"--database", dbp, "--all-platforms"}
+		if format != "" {
+			args = append(args, "--format", format)
+		}
+		if limitArg != "" {
+			args = append(args, "--limit="+limitArg)
+		}
+		args = append(args, "--", arg)
 		cs := c14MkCase("cli", i, arg, true)
 		ctx.R.Begin(cs)
 		ctx.R.Eval(1)
@@ -860,17 +903,24 @@ func engineValidateCLI(ctx *Ctx) {
 		if !ctx.R.Guard("C14", "ValidateQuery", cs, func() { want, werr = validation.ValidateQuery(arg) }) {
 			continue
 		}
-		res := h.Wtf(ctx.Wtf, nil, "--database", dbp, "--", arg)
+		limitOK, limitVal := true, 0
+		if limitArg != "" {
+			v, err := strconv.Atoi(limitArg)
+			limitVal = v
+			limitOK = err == nil && v >= 0 && v <= 100
+		}
+		res := h.Wtf(ctx.Wtf, env, args...)
 		var lines []string
 		for _, l := range strings.Split(res.Stdout, "\n") {
 			if strings.HasPrefix(l, prefix) {
 				lines = append(lines, l)
 			}
 		}
-		wit := c14Witness(cs, ref, want, werr, map[string]interface{}{"rc": res.RC, "stdout": vlib.Q(vlib.Trunc(res.Stdout, 1500)), "stderr": vlib.Q(vlib.Trunc(res.Stderr, 1500)), "lines": len(lines)})
-		vio := func(detail string) {
-			ctx.R.Violate(vlib.Violation{Property: "C14", Clause: "cli-echo", Path: "wtf -- <query>", Detail: detail + "; argument " + vlib.Q(vlib.Trunc(arg, 80)), Witness: wit})
+		wit := c14Witness(cs, ref, want, werr, map[string]interface{}{"args_quoted": fmt.Sprintf("%q", args), "env": env, "rc": res.RC, "stdout": vlib.Q(vlib.Trunc(res.Stdout, 1500)), "stderr": vlib.Q(vlib.Trunc(res.Stderr, 1500)), "lines": len(lines)})
+		vioC := func(clause, detail string) {
+			ctx.R.Violate(vlib.Violation{Property: "C14", Clause: clause, Path: "wtf -- <query>", Detail: detail + "; argument " + vlib.Q(vlib.Trunc(arg, 80)), Witness: wit})
 		}
+		vio := func(detail string) { vioC("cli-echo", detail) }
 		if bad, why := res.Crashed(); bad {
 			vio("the process did not end normally: " + why)
 			continue
@@ -878,26 +928,82 @@ func engineValidateCLI(ctx *Ctx) {
 		if ref.features() >= 2 {
 			ctx.R.Nontriv("cli", arg)
 		}
-		if ref.Accept {
-			ctx.R.Path("cli-accepted", 1)
+		// what the run printed and recorded
+		printed := 0
+		switch format {
+		case "json":
+			_, items, _, _ := JSONBlock(res.Stdout)
+			printed = len(items)
+		case "table":
+			for _, l := range strings.Split(res.Stdout, "\n") {
+				f := strings.Fields(l)
+				if len(f) > 0 && f[0] == fmt.Sprint(printed+1) && len(l) > 4 && l[3] == ' ' {
+					printed++
+				}
+			}
+		default:
+			printed, _, _ = ListBlock(res.Stdout)
+		}
+		hf, okH := c17ReadHist(h.History())
+		nowLen, nowQ := 0, ""
+		if okH && len(hf.Entries) > 0 {
+			nowLen, nowQ = len(hf.Entries), hf.Entries[len(hf.Entries)-1].Query
+		}
+		recorded := nowLen != prevLen || nowQ != prevQ
+		prevLen, prevQ = nowLen, nowQ
+		if format != "" || limitArg != "" {
+			ctx.R.Path("cli-runs-with-format-or-limit", 1)
+		}
+		if !ref.Accept || !limitOK {
+			ctx.R.Path("cli-rejected", 1)
+			if !limitOK {
+				ctx.R.Path("cli-rejected-limit", 1)
+			}
+			why := "limit " + limitArg + " is outside 0..100"
+			if !ref.Accept {
+				why = ref.why()
+			}
 			switch {
-			case len(lines) == 0:
-				vio("the statement accepts the query but no 'Searching for:' line was printed")
-			case werr == nil && lines[0] != prefix+" "+want:
-				vio(fmt.Sprintf("the binary searched for %s, the validated query is %s", vlib.Q(vlib.Trunc(strings.TrimPrefix(lines[0], prefix+" "), 80)), vlib.Q(vlib.Trunc(want, 80))))
-			case werr != nil:
-				ctx.R.Inconcl("in-process ValidateQuery disagrees with the reference (reported by engine validate)")
-			default:
+			case len(lines) > 0:
+				vio(fmt.Sprintf("the statement rejects the request (%s) but the binary went on to search: %s", why, vlib.Q(vlib.Trunc(lines[0], 100))))
+			case printed > 0:
+				vioC("cli-rejected-request-answered", fmt.Sprintf("the statement rejects the request (%s) but the binary printed %d results", why, printed))
+			case recorded:
+				vioC("cli-rejected-request-answered", fmt.Sprintf("the statement rejects the request (%s) but the run recorded a search for %s in the history", why, vlib.Q(vlib.Trunc(nowQ, 60))))
+			}
+			continue
+		}
+		ctx.R.Path("cli-accepted", 1)
+		switch {
+		case werr != nil:
+			ctx.R.Inconcl("in-process ValidateQuery disagrees with the reference (reported by engine validate)")
+		case len(lines) == 0 && format != "json":
+			vio("the statement accepts the query but no 'Searching for:' line was printed")
+		case len(lines) == 0 && !(okH && nowQ == want):
+			vio("the statement accepts the query; no 'Searching for:' line was printed and the history does not hold the validated query as its newest entry")
+		case len(lines) > 0 && lines[0] != prefix+" "+want:
+			vio(fmt.Sprintf("the binary searched for %s, the validated query is %s", vlib.Q(vlib.Trunc(strings.TrimPrefix(lines[0], prefix+" "), 80)), vlib.Q(vlib.Trunc(want, 80))))
+		default:
+			if len(lines) > 0 {
 				// what was searched for must be clean as well
 				for _, is := range c14OutputIssues(arg, strings.TrimPrefix(lines[0], prefix+" ")) {
 					vio("searched query is not clean (" + is[0] + "): " + is[1])
 				}
 			}
-		} else {
-			ctx.R.Path("cli-rejected", 1)
-			if len(lines) > 0 {
-				vio(fmt.Sprintf("the statement rejects the query (%s) but the binary went on to search: %s", ref.why(), vlib.Q(vlib.Trunc(lines[0], 100))))
-			}
+		}
+		// the limit in force: at most 100 whatever the environment says, at most the limit asked for
+		bound := 100
+		if limitArg != "" && limitVal >= 1 {
+			bound = limitVal
+		}
+		if printed > bound {
+			vioC("cli-limit", fmt.Sprintf("%d results printed for --limit %s (an accepted limit is between 1 and 100, 0 or none meaning the default)", printed, vlib.Q(limitArg)))
+		}
+		if printed >= 5 {
+			ctx.R.Path("cli-answers-with-5-or-more-results", 1)
+		}
+		if printed == 100 {
+			ctx.R.Path("cli-answers-with-100-results", 1)
 		}
 	}
 }
